@@ -36,6 +36,7 @@ class ListTheory:
         self.lat = z3.Function(f'lat_{tag}', self.sort, z3.IntSort(), elem_sort)
         self.lapp = z3.Function(f'lapp_{tag}', self.sort, elem_sort, self.sort)
         self.lempty = z3.Const(f'lempty_{tag}', self.sort)
+        self.lcat = z3.Function(f'lcat_{tag}', self.sort, self.sort, self.sort)      # concatenation
         l = z3.Const('l!q', self.sort)
         x = z3.Const('x!q', elem_sort)
         i = z3.Int('i!q')
@@ -58,6 +59,20 @@ class ListTheory:
                                          z3.If(i == self.llen(l), x, self.lat(l, i)),
                                          patterns=[self.lat(self.lapp(l, x), i)])),
             self.ext_axiom,
+        ]
+        l3 = z3.Const('l3!q', self.sort)
+        self.axioms += [
+            (f'lcat_len_{tag}', z3.ForAll([l, l2], self.llen(self.lcat(l, l2)) == self.llen(l) + self.llen(l2),
+                                          patterns=[self.lcat(l, l2)])),
+            (f'lcat_at_{tag}', z3.ForAll([l, l2, i], self.lat(self.lcat(l, l2), i) ==
+                                         z3.If(i < self.llen(l), self.lat(l, i), self.lat(l2, i - self.llen(l))),
+                                         patterns=[self.lat(self.lcat(l, l2), i)])),
+            (f'lcat_empty_r_{tag}', z3.ForAll([l], self.lcat(l, self.lempty) == l, patterns=[self.lcat(l, self.lempty)])),
+            (f'lcat_empty_l_{tag}', z3.ForAll([l], self.lcat(self.lempty, l) == l, patterns=[self.lcat(self.lempty, l)])),
+            (f'lcat_assoc_{tag}', z3.ForAll([l, l2, l3], self.lcat(self.lcat(l, l2), l3) == self.lcat(l, self.lcat(l2, l3)),
+                                            patterns=[self.lcat(self.lcat(l, l2), l3)])),
+            (f'lcat_app_{tag}', z3.ForAll([l, l2, x], self.lcat(l, self.lapp(l2, x)) == self.lapp(self.lcat(l, l2), x),
+                                          patterns=[self.lcat(l, self.lapp(l2, x))])),
         ]
         if self.lsum is not None:
             self.axioms += [
